@@ -109,6 +109,18 @@ pub fn register(m: &mut HashMap<&'static str, OpFn>) {
     vec_ops!(m, avx2, "vec.avx2", 40, square_and_negate_d);
     #[cfg(vd_ifma)]
     vec_ops!(m, ifma, "vec.ifma", 20, square);
+    // lane movement on the reduced IFMA type (F51x4Reduced has its own shuffle / blend)
+    #[cfg(vd_ifma)]
+    m.insert("vec.ifma.opr", |a| {
+        use curve25519_dalek::verif::ifma as V;
+        let x = parse_raw(a.tok(1), 20);
+        let r = match a.tok(0) {
+            "shuffle" => V::shuffle_reduced(&x, a.tok(2)),
+            "blend" => V::blend_reduced(&x, &parse_raw(a.tok(2), 20), a.tok(3)),
+            _ => panic!("ARG: vec op"),
+        };
+        vec![raw_tok(&r, 20)]
+    });
     m.insert("bounds.report", |_a| {
         use curve25519_dalek::verif::bounds;
         let mut o = vec![tb(cfg!(vd_bounds))];
